@@ -55,6 +55,10 @@ type JobDef struct {
 	MaxPaths int64
 	MaxSteps int64
 	NoNative bool // no native replay / translator validation possible for this job
+	// NativeRepeat > 1: a counterexample is run natively up to this many times
+	// and is confirmed by any run that reproduces it (jobs whose native runs
+	// depend on Go's randomised map iteration or on timing).
+	NativeRepeat int
 	Race     bool // native runs are built with the race detector; a report during a case is that case's verdict
 	// EngineOnly / NativeOnly are harness files used on one side only
 	// (bodyless declarations of engine accessors / their native bodies).
@@ -560,6 +564,10 @@ func cmdCheck(args []string) int {
 			seenV[v.ID]++
 			cases = append(cases, replayCase{Entry: j.Entry, Inputs: v.Inputs, Params: j.Params, Only: c.Only})
 			caseKind = append(caseKind, "viol:"+v.ID+":"+v.Msg)
+			for k := 1; k < j.NativeRepeat; k++ {
+				cases = append(cases, replayCase{Entry: j.Entry, Inputs: v.Inputs, Params: j.Params, Only: c.Only})
+				caseKind = append(caseKind, "again:"+v.ID+":"+v.Msg)
+			}
 		}
 		var knownOrder []string
 		for k := range st.KnownHit {
@@ -595,7 +603,13 @@ func cmdCheck(args []string) int {
 				for i, r := range res {
 					kind := caseKind[i]
 					switch {
+					case strings.HasPrefix(kind, "again:"):
+						// a further native run of the preceding counterexample: handled with it
 					case strings.HasPrefix(kind, "viol:"):
+						// any of the repeated native runs that reproduces it confirms it
+						for k := i + 1; k < len(res) && strings.HasPrefix(caseKind[k], "again:") && !nativeViolates(r); k++ {
+							r = res[k]
+						}
 						if nativeViolates(r) {
 							nviol++
 							p := filepath.Join(outRoot(), "replay", fmt.Sprintf("%s-%d.json", id, nviol))
